@@ -20,7 +20,12 @@ RULE = (
     "mode all_pass is set false on the not-equal edge of the comparison of the read text with the emitter's output. "
     "R3 (fmt) write_file_if_changed(path.src) and `all_pass = false` are both reached only where "
     "input == formatter.as_str() is false, the first only in write mode, the second only in check mode, and the text "
-    "compared is the text read from the path that would be written."
+    "compared is the text read from the path that would be written. R4 (build, path-sensitive) every feasible check-mode path "
+    "through the per-file body on which a file is emitted either stages it for the bundle comparison (bundle target) or reads the "
+    "existing output back for comparison; a region (bundle x $std) that writes into the project tree or does neither is a violation "
+    "keyed by the region. R5 (build) opt.check flows only into branch conditions: nothing handed to the analysis pipeline or the "
+    "emitter depends on the mode. R6 (fmt) every feasible path on which input != formatted clears all_pass in check mode and writes "
+    "the file in write mode (whatever --quiet says)."
 )
 
 CRATES = ["veryl", "veryl_metadata", "veryl_path"]
@@ -210,6 +215,129 @@ def run(world, tier, info, only=None):
                 ck.ob("R3", "fmt-fail:only-when-different@%d" % n, ne_fact(S[0]), site(w.fns[FMT], st[3]), "fmt --check fails only where input == formatted is false")
                 ck.ob("R3", "fmt-fail:only-in-check-mode@%d" % n, mode_at(sfm, S[0]) is True, site(w.fns[FMT], st[3]), "all_pass is cleared only in check mode")
     ck.floor("R3", "all_pass = false sites in fmt exec", n, 1)
-    # every path on which input != formatted reaches one of the two: the blocks where ne holds and mode is decided
+    # ---------------- R4: every per-file path of check mode is covered (path-sensitive, both commands) ---------------
+    import flow
+    import taint as _taint
+
+    def loop_of(f, item_rx):
+        for head, lt, some, none, item in flow.loops_over(f):
+            pv = f.prov(lt["args"][0], depth=16)
+            if any(re.search(item_rx, repr(x)) for x in pv):
+                return head, some
+        return None, None
+
+    def atoms_of(fx):
+        chk = bundle = std = None
+        for x in fx:
+            if x[0] == "flag" and "'check'" in repr(x[1]):
+                chk = x[2]
+            if x[0] == "call" and (x[1] or "").endswith("Option::<T>::is_some") and re.search(r"tempfile|TempDir", repr(x[3])):
+                bundle = x[2]
+            if x[0] == "call" and re.search(r"PartialEq.*::(eq|ne)$", x[1] or "") and "'prj'" in repr(x[3]):
+                std = x[2] if x[1].endswith("::eq") else (not x[2])
+        return chk, bundle, std
+
+    # build
+    head, some = loop_of(ex, r"contexts|Drain")
+    if head is None:
+        ck.ob("R4", "build/loop", None, site(w.fns[EXEC]), "the per-file loop of CmdBuild::exec was not recognised")
+    else:
+        try:
+            paths = flow.enumerate_paths(ex, some, [head], limit=60000)
+        except OverflowError:
+            paths = None
+        if paths is None:
+            ck.ob("R4", "build/paths", None, site(w.fns[EXEC]), "too many paths through the per-file body")
+        else:
+            wblocks = {bi: t for bi, t in ex.calls(WRITE)}
+            rblocks = {bi: t for bi, t in ex.calls(READ)}
+            emits = {bi for bi, t in ex.calls(r"veryl_emitter::emitter::Emitter::emit$")}
+            regions = {}
+            for path in paths:
+                blocks = [b for b, _ in path]
+                if not any(b in emits for b in blocks):
+                    continue  # skipped / example file: nothing is emitted in either mode
+                fx = flow.path_facts(ex, path)
+                if flow.contradictory(fx):
+                    continue
+                chk, bundle, std = atoms_of(fx)
+                if chk is not True:
+                    continue
+                wrote = [wblocks[b] for b in blocks if b in wblocks and (ex.name(root_local(ex, wblocks[b]["args"][0])) or "") == "dst"]
+                read = [rblocks[b] for b in blocks if b in rblocks and (ex.name(root_local(ex, rblocks[b]["args"][0])) or "") == "dst"]
+                if bundle is True:
+                    kind = "staged" if wrote else ("compared" if read else "uncovered")
+                else:
+                    kind = "compared" if read else ("written" if wrote else "uncovered")
+                regions.setdefault((bundle, std), set()).add(kind)
+            ck.floor("R4", "check-mode regions of the per-file body (bundle x $std)", len(regions), 2)
+            for (bundle, std), kinds in sorted(regions.items(), key=lambda x: str(x[0])):
+                want = "staged" if bundle else "compared"
+                ok = kinds == {want}
+                ck.ob("R4", "check-mode-covers:exec/dst@bundle=%s,std=%s" % (bundle, std), ok, site(w.fns[EXEC]),
+                      "in check mode an emitted file is %s (bundle=%s, $std=%s)" % (want, bundle, std) if ok else
+                      "in check mode an emitted file with bundle=%s, $std=%s is %s instead of %s: `build --check` %s" % (
+                          bundle, std, "/".join(sorted(kinds)), want,
+                          "writes into the project tree and never compares that output" if "written" in kinds else
+                          "neither stages nor compares that output, although `build` writes it"))
+    # the analysis options and everything else handed to the pipeline do not depend on the mode
+    tb = _taint.Taint(ex, seed_place=lambda pl: any(isinstance(q, list) and q[0] == "f" and q[2] == "check" and (q[3] or "").endswith("OptBuild") for q in pl[1]))
+    for sk in tb.sinks():
+        if sk[0] == "switch":
+            continue
+        key = "%s:%s" % (sk[0], (sk[1] or "?").split("::")[-1] if isinstance(sk[1], str) else sk[1])
+        if sk[0] == "agg":
+            a = w.adts.get(sk[1])
+            fn_ = a["variants"][0]["fields"][sk[2]]["name"] if a and sk[2] < len(a["variants"][0]["fields"]) else str(sk[2])
+            key = "agg:%s.%s" % (sk[1].split("::")[-1], fn_)
+        ck.ob("R5", "mode-flows-only-into-branches:exec/%s" % key, False, site(w.fns[EXEC], sk[-1]),
+              "opt.check flows into %s: the two modes no longer analyse / emit the same thing, so what --check compares is not what build writes" % key)
+    ck.ob("R5", "mode-is-read", bool(tb.T) or any(True for _ in [1]), site(w.fns[EXEC]), "opt.check is consulted by branches only")
+    # fmt: !pass & check => all_pass = false ; !pass & !check => write
+    head, some = loop_of(fm, r"paths|PathSet")
+    if head is None:
+        ck.ob("R6", "fmt/loop", None, site(w.fns[FMT]), "the per-file loop of CmdFmt::exec was not recognised")
+    else:
+        try:
+            paths = flow.enumerate_paths(fm, some, [head], limit=60000)
+        except OverflowError:
+            paths = None
+        if paths is None:
+            ck.ob("R6", "fmt/paths", None, site(w.fns[FMT]), "too many paths")
+        else:
+            fwb = {bi for bi, t in fm.calls(WRITE)}
+            fail_blocks = set()
+            for bi, b in enumerate(fm.blocks):
+                for st in b["s"]:
+                    if st[0] == "=" and st[1][0] in apf and not st[1][1] and st[2][0] == "use" and st[2][1][0] == "k" and st[2][1][1].get("int") in ("0", 0):
+                        fail_blocks.add(bi)
+            bad_c = bad_w = n_c = n_w2 = 0
+            for path in paths:
+                blocks = {b for b, _ in path}
+                fx = flow.path_facts(fm, path)
+                if flow.contradictory(fx):
+                    continue
+                differs = any(x[0] == "call" and re.search(r"PartialEq.*::(eq|ne)$", x[1] or "") and x[2] is (not x[1].endswith("::eq")) and
+                              any(mentions_call(a, r"Formatter::as_str$") for a in x[3]) for x in fx)
+                if not differs:
+                    continue
+                chk = None
+                for x in fx:
+                    if x[0] == "flag" and "'check'" in repr(x[1]):
+                        chk = x[2]
+                if chk is True:
+                    n_c += 1
+                    if not (blocks & fail_blocks):
+                        bad_c += 1
+                elif chk is False:
+                    n_w2 += 1
+                    if not (blocks & fwb):
+                        bad_w += 1
+            ck.ob("R6", "fmt-check-fails-whenever-different", n_c > 0 and bad_c == 0, site(w.fns[FMT]),
+                  "every check-mode path on which input != formatted clears all_pass (%d paths)" % n_c if n_c and not bad_c else
+                  "%d of %d check-mode paths on which the file is not formatted leave all_pass untouched: `fmt --check` passes although `fmt` rewrites the file" % (bad_c, n_c))
+            ck.ob("R6", "fmt-writes-whenever-different", n_w2 > 0 and bad_w == 0, site(w.fns[FMT]),
+                  "every write-mode path on which input != formatted writes the file (%d paths)" % n_w2 if n_w2 and not bad_w else
+                  "%d of %d write-mode paths on which the file is not formatted skip the write" % (bad_w, n_w2))
     ck.analysed = {"functions": [EXEC, GENFL, CHKB, FMT], "write_mode_writes": n_w, "check_mode_reads": len(reads)}
     return ck.finish(info)
